@@ -126,9 +126,9 @@ class Geometry:
                 )
 
         else:
-            # Scalar case.
-            if not all([i == j for i, j in zip(fetched_shape, self.num_voxels)]):
-                self.cached_voxel_volume = self.voxel_volume * scaling
+            # Scalar case. Always rescale (scaling is 1 for compatible data), such that
+            # the result does not depend on the data integrated before.
+            self.cached_voxel_volume = self.voxel_volume * scaling
 
         # ! ---- Perform spatial integration
         if isinstance(data, np.ndarray):
